@@ -20,6 +20,8 @@ func init() {
 				Old: "s.w.Write([]byte{0, 0})", New: "s.w.Write([]byte{0, 0, 0, 0})", Rule: "DX.STL", Expect: "record"},
 			{Name: "CSV written with 6 digits", File: "fileformats/segment_csv.go",
 				Old: "strconv.FormatFloat(x, 'G', -1, 64)", New: "strconv.FormatFloat(x, 'G', 6, 64)", Rule: "DF", Expect: "SegmentCSVWriter"},
+			{Name: "reader advances only after reading a row (defect repaired by the DX.CURSOR fix)", File: "fileformats/ply.go",
+				Old: "\t\tif p.curElementRead < p.header.Elements[p.curElement].Count {\n\t\t\tbreak\n\t\t}\n\t\tp.curElementRead = 0\n\t\tp.curElement++\n", New: "\t\tbreak\n", Rule: "DX.CURSOR", Expect: "PLYReader"},
 			{Name: "Parse forgets int16", File: "fileformats/ply.go",
 				Old: "\tcase PLYPropertyTypeShort, PLYPropertyTypeInt16:\n\t\tx, err := strconv.ParseInt(s, 10, 16)", New: "\tcase PLYPropertyTypeShort:\n\t\tx, err := strconv.ParseInt(s, 10, 16)", Rule: "DX.CASES", Expect: "Parse"},
 		},
@@ -36,6 +38,8 @@ func runC15(c *Ctx) {
 	c.floor("DF", 3)
 	c.runSTLLayout("DX.STL")
 	c.floor("DX.STL", 2)
+	c.runPLYCursor("DX.CURSOR")
+	c.floor("DX.CURSOR", 2)
 	s := c.decoderScope("")
 	s.ruleDAHint("DA.HINT")
 	c.floor("DA.HINT", 4)
